@@ -58,40 +58,7 @@ func foldRangeRule(c *Ctx, r *Report, rule, fname, consequence string) {
 			if bt.Kind() == types.Int32 {
 				problems = append(problems, fmt.Sprintf("%s: the fold works on runes (strings.Map / range over a string): an octet above 0x7f that is not valid UTF-8 is replaced by U+FFFD, so the folded name is a different name; DNS names are folded octet by octet (RFC 4343)", c.pos(add.Pos())))
 			}
-			lo, hi := int64(-1), int64(1<<40)
-			for _, fc := range factsAt(f, add.Block()) {
-				cmp, ok := fc.Atom.(*ssa.BinOp)
-				if !ok {
-					continue
-				}
-				// direct comparisons of the character
-				l, h, hasL, hasH := intervalFromFact(fc, func(v ssa.Value) bool { return sameChar(v, x) })
-				if hasL && l > lo {
-					lo = l
-				}
-				if hasH && h < hi {
-					hi = h
-				}
-				// unsigned trick: (c - K) <op> M
-				sub, isSub := cmp.X.(*ssa.BinOp)
-				if !isSub || sub.Op != token.SUB || !sameChar(sub.X, x) {
-					continue
-				}
-				kk, isKK := constIntOf(sub.Y)
-				st, okT := sub.Type().Underlying().(*types.Basic)
-				if !isKK || !okT || st.Info()&types.IsUnsigned == 0 {
-					continue
-				}
-				_, h2, _, hasH2 := intervalFromFact(fc, func(v ssa.Value) bool { return v == ssa.Value(sub) })
-				if hasH2 {
-					if kk > lo {
-						lo = kk
-					}
-					if kk+h2 < hi {
-						hi = kk + h2
-					}
-				}
-			}
+			lo, hi := charInterval(f, add.Block(), func(v ssa.Value) bool { return sameChar(v, x) })
 			if lo != 'A' || hi != 'Z' {
 				show := func(v int64) string {
 					if v >= 32 && v < 127 {
@@ -103,11 +70,84 @@ func foldRangeRule(c *Ctx, r *Report, rule, fname, consequence string) {
 			}
 		})
 	}
+	// a fast path that looks for the first letter to fold before copying: the copy is reached for every octet in
+	// 'A'..'Z' (the octets skipped on the way to `return s` are never upper-case letters)
+	for _, f := range fns {
+		allInstrs(f, func(in ssa.Instruction) {
+			cv, ok := in.(*ssa.Convert)
+			if !ok {
+				return
+			}
+			if _, isSl := cv.Type().Underlying().(*types.Slice); !isSl {
+				return
+			}
+			if bt, ok := cv.X.Type().Underlying().(*types.Basic); !ok || bt.Info()&types.IsString == 0 {
+				return
+			}
+			isChar := func(v ssa.Value) bool {
+				switch t := v.(type) {
+				case *ssa.Index:
+					return t.X == cv.X
+				case *ssa.Lookup:
+					return t.X == cv.X
+				}
+				return false
+			}
+			lo, hi := charInterval(f, cv.Block(), isChar)
+			if lo > 'A' || hi < 'Z' {
+				show := func(v int64) string {
+					if v >= 32 && v < 127 {
+						return fmt.Sprintf("%q", rune(v))
+					}
+					return fmt.Sprint(v)
+				}
+				problems = append(problems, fmt.Sprintf("%s: the copy that is folded is only made when an octet in %s..%s is found; a name whose only capitals lie outside that range is returned as it is: %s", c.pos(cv.Pos()), show(lo), show(hi), consequence))
+			}
+		})
+	}
 	if n == 0 {
 		r.undecided(rule, fname, c.pos(fn.Pos()), "%s does not lower-case by adding 32 to a byte or rune; its case folding cannot be recognised", fname)
 		return
 	}
 	r.check(len(problems) == 0, rule, fname, c.pos(fn.Pos()), "exactly 'A'..'Z' += 32", "%s", strings.Join(problems, "; "))
+}
+
+// charInterval: the interval of the character (a value accepted by isChar) on the edges that dominate blk, from
+// direct comparisons with constants and from the unsigned idiom (c - K) <op> M.
+func charInterval(f *ssa.Function, blk *ssa.BasicBlock, isChar func(ssa.Value) bool) (lo, hi int64) {
+	lo, hi = int64(-1), int64(1<<40)
+	for _, fc := range factsAt(f, blk) {
+		cmp, ok := fc.Atom.(*ssa.BinOp)
+		if !ok {
+			continue
+		}
+		l, h, hasL, hasH := intervalFromFact(fc, isChar)
+		if hasL && l > lo {
+			lo = l
+		}
+		if hasH && h < hi {
+			hi = h
+		}
+		sub, isSub := cmp.X.(*ssa.BinOp)
+		if !isSub || sub.Op != token.SUB || !isChar(sub.X) {
+			continue
+		}
+		kk, isKK := constIntOf(sub.Y)
+		st, okT := sub.Type().Underlying().(*types.Basic)
+		if !isKK || !okT || st.Info()&types.IsUnsigned == 0 {
+			continue
+		}
+		_, h2, _, hasH2 := intervalFromFact(fc, func(v ssa.Value) bool { return v == ssa.Value(sub) })
+		if hasH2 {
+			if kk > lo {
+				lo = kk
+			}
+			if kk+h2 < hi {
+				hi = kk + h2
+			}
+		}
+	}
+	return lo, hi
 }
 
 // sameChar: the same character value: identical, structurally equal, or two loads of the same element b[i]
